@@ -3,6 +3,7 @@ C01 — helper lemmas: attribute bits, header reads of encoder output, one-segme
 -/
 import TD.C01.Model
 import TD.C01.Spec
+import TD.C01.RegexLemmas
 
 namespace TD.C01
 
@@ -449,34 +450,20 @@ theorem decDigits_spec (n : Nat) :
   rw [h1, List.append_nil]
   exact ⟨by rw [h2]; simp, h3, h4⟩
 
-theorem dropWhile_fill (fill : Bytes) (d : Nat) (t : Bytes) (hf : fill.all isFill = true) (hd : 49 ≤ d) :
-    (fill ++ d :: t).dropWhile mFill = d :: t := by
-  induction fill with
-  | nil =>
-    have : mFill d = false := by unfold mFill; simp; omega
-    simp [this]
-  | cons c cs ih =>
-    simp only [List.all_cons, Bool.and_eq_true] at hf
-    have : mFill c = true := hf.1
-    simp [this, ih hf.2]
+/-- the expressions found in the source are the ones the roundtrip is proved for -/
+theorem gen_seq : Gen.C01Sul.reSeqItems = itemsNum := by decide
+theorem gen_maxLen : Gen.C01Sul.reMaxLenItems = itemsNum := by decide
+theorem gen_version : Gen.C01Sul.reVersionItems = itemsVersion := by decide
+theorem gen_structure : Gen.C01Sul.reStructureItems = itemsStructure := by decide
+theorem gen_size : Gen.C01Sul.size = 80 := by decide
 
-theorem dropWhile_digits (t : Bytes) (h : ∀ c ∈ t, mDigit c = true) : t.dropWhile mDigit = [] ∧ t.takeWhile mDigit = t := by
-  induction t with
-  | nil => simp
-  | cons c cs ih =>
-    have hc : mDigit c = true := h c (by simp)
-    have := ih (fun x hx => h x (by simp [hx]))
-    simp [List.dropWhile, List.takeWhile, hc, this]
-
-theorem scanNum_enc (fill : Bytes) (n : Nat) (hf : fill.all isFill = true) (hn : 1 ≤ n) :
-    scanNum (fill ++ decDigits n) = some (decDigits n) := by
+theorem matchNum_enc (fill : Bytes) (n : Nat) (hf : fill.all isFill = true) (hn : 1 ≤ n) :
+    reMatch itemsNum (fill ++ decDigits n) = some (decDigits n) := by
   obtain ⟨_, hdig, hhead⟩ := decDigits_spec n
   obtain ⟨d, t, hdt, h1, h2⟩ := hhead hn
   rw [hdt] at hdig ⊢
-  unfold scanNum
-  rw [dropWhile_fill fill d t hf h1]
-  obtain ⟨hdw, htw⟩ := dropWhile_digits t (fun c hc => hdig c (by simp [hc]))
-  simp [hdw, htw, atDollar, h1, h2]
+  exact reMatch_num fill d t (fun y hy => List.all_eq_true.mp hf y hy) h1 h2
+    (fun y hy => hdig y (by simp [hy]))
 
 theorem five_split (A B C D E : Bytes) (hA : A.length = 4) (hB : B.length = 5) (hC : C.length = 6) (hD : D.length = 5) :
     let X := A ++ B ++ C ++ D ++ E
@@ -493,7 +480,6 @@ theorem five_split (A B C D E : Bytes) (hA : A.length = 4) (hB : B.length = 5) (
   refine ⟨by rw [hX]; exact List.take_left' hA, by rw [d4]; exact List.take_left' hB,
     by rw [d9]; exact List.take_left' hC, by rw [d15]; exact List.take_left' hD, d20⟩
 
-theorem regexes_ok : regexesAsModelled = true := by decide
 
 theorem SULW.conformant_iff (s : SULW) (h : s.conformant = true) :
     1 ≤ s.seq ∧ s.seqFill.all isFill = true ∧ s.seqFill.length + (decDigits s.seq).length = 4 ∧
@@ -524,13 +510,13 @@ theorem sulParse_enc (s : SULW) (h : s.conformant = true) :
     (s.maxFill ++ decDigits s.maxLen) s.ident (by simpa using h3) (by simp [hv]) rfl (by simpa using h8)
   have e : encodeSUL s = s.seqFill ++ decDigits s.seq ++ s.ver ++ recordWord ++ (s.maxFill ++ decDigits s.maxLen) ++ s.ident := rfl
   unfold sulParse
-  rw [regexes_ok, e]
+  rw [gen_size, gen_seq, gen_maxLen, gen_version, gen_structure, e]
   rw [e] at hlen
-  simp only [Bool.not_true, Bool.false_eq_true, if_false, hlen, ne_eq, not_true_eq_false] at t4 t5 t6 t7 t8 ⊢
-  rw [t4, t5, t6, t7, t8, scanNum_enc _ _ h2 h1, scanNum_enc _ _ h7 (by omega)]
-  have hsv : scanVersion s.ver = some s.ver := by rw [hv]; simp [scanVersion, ha, hb, atDollar]
-  have hss : scanStructure recordWord = some recordWord := by decide
-  simp only [hsv, hss, (decDigits_spec s.seq).1, (decDigits_spec s.maxLen).1]
+  simp only [hlen, ne_eq, not_true_eq_false, if_false] at t4 t5 t6 t7 t8 ⊢
+  rw [t4, t5, t6, t7, t8, matchNum_enc _ _ h2 h1, matchNum_enc _ _ h7 (by omega)]
+  have hsv : reMatch itemsVersion s.ver = some s.ver := by rw [hv]; exact reMatch_version a b ha hb
+  simp only [hsv, show reMatch itemsStructure recordWord = some recordWord from reMatch_structure,
+    (decDigits_spec s.seq).1, (decDigits_spec s.maxLen).1]
 
 /-! ### counting first segments -/
 
